@@ -298,6 +298,18 @@ theorem tail_permute (bg : List Rat) (rows : List (List Rat)) {perm : List Nat}
     tail bg (permute rows perm) x = tail bg rows x :=
   expect_perm bg (permute_perm rows hperm) _
 
+/-- what the driver checks of the implementation's permutation implies the hypothesis the theorems
+    use: it is a permutation of the row indices -/
+theorem admissiblePerm_perm {ranges : List Float32} {perm : List Nat}
+    (h : admissiblePerm ranges perm = true) : perm.Perm (List.range ranges.length) := by
+  simp only [admissiblePerm, Bool.and_eq_true, beq_iff_eq, List.all_eq_true, List.mem_range,
+    List.contains_eq_mem, decide_eq_true_eq] at h
+  obtain ⟨⟨hlen, hall⟩, _⟩ := h
+  have hsub : List.range ranges.length ⊆ perm := fun i hi => hall i (List.mem_range.1 hi)
+  have hsp : (List.range ranges.length).Subperm perm :=
+    List.subperm_of_subset List.nodup_range hsub
+  exact (hsp.perm_of_length_le (by simp [hlen])).symm
+
 /-! ### every refinement step -/
 
 theorem pvalueSteps_mem {rows : List (List Rat)} {bg : List Rat} {s : Rat} {fuel : Nat} {g : Rat}
